@@ -32,7 +32,8 @@ Failed ==
                                     /\ ~(FilesAreReported(OFiles, OProc, w.dryRun, w.noWrites) /\ O.removed = <<>>)
        [] n = "IndexOnlyWhenAsked" -> ~IndexOnlyWhenAsked(O.idx, w.buildIndex, w.dryRun)}
 \* a run whose compile() returned but which printed no report although not --quiet
-NoReportAfterCompile == w.usage = "none" /\ ~w.quiet /\ O.ncompiles = 1 /\ O.completed /\ ~O.reported
+\* and which created or replaced files: they are reported nowhere
+NoReportAfterCompile == w.usage = "none" /\ ~w.quiet /\ O.ncompiles = 1 /\ O.completed /\ ~O.reported /\ OFiles # {}
 
 Drift ==
   IF O.exit # exitc THEN "exit"
